@@ -466,6 +466,153 @@ func meekCase(c *mon.Case, r *mon.Run, kind string, seed uint64) {
 	synctest.Wait()
 }
 
+// meekPendingWrites: the HTTP peer holds the first request without answering;
+// meanwhile the application keeps writing until its Write blocks behind the
+// client's full write queue; then the connection to the HTTP peer fails (closed
+// without an answer / reset / answer cut short).  The blocked Write must come
+// back (with an error or not) instead of panicking or staying blocked, and
+// Read must report the failure.
+func meekPendingWrites(c *mon.Case, r *mon.Run, fault string, seed uint64) {
+	t := transports.Get("meek_lite")
+	cf, err := t.ClientFactory("")
+	if err != nil {
+		c.Violation("setup/meek-factory", err.Error(), nil)
+		return
+	}
+	args := pt.Args{}
+	args.Add("url", "http://meek.example/")
+	pa, err := cf.ParseArgs(&args)
+	if err != nil {
+		c.Violation("setup/meek-args", err.Error(), nil)
+		return
+	}
+	var mu sync.Mutex
+	var conns []*memwire.Conn
+	release := make(chan struct{})
+	var wg sync.WaitGroup
+	first := true
+	serve := func(sw *memwire.Conn) {
+		defer wg.Done()
+		br := bufio.NewReader(sw)
+		for {
+			req, err := http.ReadRequest(br)
+			if err != nil {
+				return
+			}
+			io.Copy(io.Discard, req.Body)
+			mu.Lock()
+			isFirst := first
+			first = false
+			mu.Unlock()
+			if !isFirst {
+				// whatever comes after the failure is refused the same way
+				sw.Close()
+				return
+			}
+			<-release
+			switch fault {
+			case "closed-without-answer":
+				sw.Close()
+			case "reset":
+				sw.In().SetCut(sw.In().Delivered(), memwire.CutRST)
+				sw.Out().CloseWrite()
+				sw.Close()
+			case "answer-cut-short":
+				fmt.Fprintf(sw, "HTTP/1.1 200 OK\r\nContent-Length: 5000\r\n\r\n")
+				sw.Write(make([]byte, 100))
+				sw.Close()
+			}
+			return
+		}
+	}
+	dialFn := func(string, string) (net.Conn, error) {
+		a, b := memwire.Pair(memwire.Options{})
+		mu.Lock()
+		conns = append(conns, a, b)
+		mu.Unlock()
+		wg.Add(1)
+		c.Go(nil, func() { serve(b) })
+		return a, nil
+	}
+	conn, err := cf.Dial("tcp", "192.0.2.9:80", dialFn, pa)
+	if err != nil {
+		c.Violation("setup/meek-dial", err.Error(), nil)
+		return
+	}
+	var readEnded, writerDone bool
+	var nWritten int
+	var werr error
+	rdDone := make(chan struct{})
+	c.Go(func() { close(rdDone) }, func() {
+		buf := make([]byte, 4096)
+		for {
+			if _, err := conn.Read(buf); err != nil {
+				mu.Lock()
+				readEnded = true
+				mu.Unlock()
+				return
+			}
+		}
+	})
+	wrDone := make(chan struct{})
+	c.Go(func() { close(wrDone) }, func() {
+		defer func() {
+			mu.Lock()
+			writerDone = true
+			mu.Unlock()
+		}()
+		blk := make([]byte, 1000)
+		for i := 0; i < 60; i++ {
+			if _, err := conn.Write(blk); err != nil {
+				mu.Lock()
+				werr = err
+				mu.Unlock()
+				return
+			}
+			mu.Lock()
+			nWritten++
+			mu.Unlock()
+		}
+	})
+	synctest.Wait() // the request is held, the writer is blocked behind the queue (or done, if the queue took everything)
+	mu.Lock()
+	blockedAfter := nWritten
+	mu.Unlock()
+	close(release)
+	time.Sleep(20 * time.Minute)
+	synctest.Wait()
+	mu.Lock()
+	re, wd, nw, we := readEnded, writerDone, nWritten, werr
+	mu.Unlock()
+	r.Count("evaluations", 1)
+	r.Count("meek_cases", 1)
+	r.Count("meek_pending_writes_"+fault, 1)
+	if blockedAfter < 60 {
+		r.Count("meek_writer_was_blocked_behind_the_queue", 1)
+	}
+	wit := map[string]any{"transport": "meek_lite", "fault": fault, "writes_before_block": blockedAfter, "writes_total": nw, "write_err": fmt.Sprint(we)}
+	if !wd {
+		c.Violation("wedged/meek_lite/Write/"+fault, "a Write that was waiting behind the full write queue when the HTTP connection failed has not returned 20 virtual minutes later", wit)
+	}
+	if !re {
+		c.Violation("wedged/meek_lite/Read/pending-writes-"+fault, "the HTTP connection failed for good but Read has not returned an error 20 virtual minutes later", wit)
+	} else {
+		r.Count("meek_failed_cleanly", 1)
+	}
+	r.Distinct("nontrivial", "meek-pending/"+fault)
+	conn.Close()
+	<-rdDone
+	<-wrDone
+	mu.Lock()
+	cs := append([]*memwire.Conn(nil), conns...)
+	mu.Unlock()
+	for _, x := range cs {
+		x.Close()
+	}
+	wg.Wait()
+	synctest.Wait()
+}
+
 // ---------------------------------------------------------------- SOCKS5 front end
 
 func socksCase(c *mon.Case, r *mon.Run, kind string, off int, garbage bool, seed uint64) {
